@@ -1,20 +1,24 @@
-import Wayfind.Proofs.Reach
+import Wayfind.Proofs.Reachable
 
 /-! # C02 — no false negatives
-On every reachable tree, if some stored route can be laid over the path (`Fits`, for an arbitrary constraint
-environment — in particular constraints that are not prefix-closed), the search returns a match.
-Status: **partial** — tree layer; see C01. -/
+On every router reachable through the API, if some stored route can be laid over the path (`Fits`, for an arbitrary
+constraint environment — in particular constraints that are not prefix-closed), `search` returns a match; `None` only
+when nothing fits.
+Status: **partial** — stored routes ↔ live templates is the registry invariant; see C01. -/
 
-theorem C02_complete_tree (env : Env) (ops : List ROp) (hw : ∀ op ∈ ops, op.wf) (path : Bytes) :
-    (∃ r ∈ Node.routes (ops.foldl applyROp Node.empty), ∃ vs, Fits env r.parts path vs) →
-    (Node.search env (ops.foldl applyROp Node.empty) path []).isSome = true :=
-  (reachable_search env ops hw path).2.2
+theorem C02_complete (env : Env) (r : Router) (h : Reachable r) (path : Bytes)
+    (hfit : ∃ rt ∈ Node.routes r.root, ∃ vs, Fits env rt.parts path vs) :
+    (r.search env path).isSome = true := by
+  rw [Router.search_eq_walk env r h path]
+  have := refWalk_complete env path.length (Node.routes r.root) path [] (Nat.le_refl _) hfit
+  cases hw : refWalk env path.length (Node.routes r.root) path [] with
+  | none => rw [hw] at this; cases this
+  | some x => simp
 
-/-- `None` only when nothing fits -/
-theorem C02_none_only_if_nothing_fits (env : Env) (ops : List ROp) (hw : ∀ op ∈ ops, op.wf) (path : Bytes)
-    (h : Node.search env (ops.foldl applyROp Node.empty) path [] = none) :
-    ¬ ∃ r ∈ Node.routes (ops.foldl applyROp Node.empty), ∃ vs, Fits env r.parts path vs := by
+theorem C02_none_only_if_nothing_fits (env : Env) (r : Router) (h : Reachable r) (path : Bytes)
+    (hnone : r.search env path = none) :
+    ¬ ∃ rt ∈ Node.routes r.root, ∃ vs, Fits env rt.parts path vs := by
   intro hex
-  have := C02_complete_tree env ops hw path hex
-  rw [h] at this
-  exact absurd this (by simp)
+  have := C02_complete env r h path hex
+  rw [hnone] at this
+  cases this
